@@ -7,11 +7,9 @@ foreign pointers) and EVERY configuration `JitAllocator_new_impl` can produce.  
 the `used` and `stop` bit vectors, `area_used`, the kFlagEmpty / kFlagIncremental flags and the incremental-mode cache to the table of
 spans the caller holds; the proof is by induction over the history (`Inv.step`, Lemmas/JitAllocStep.lean).
 
-Not proved here (only tested by the correspondence + monitor, see notes/C09.md): the
-pool totals (used / reserved size) as sums over blocks, the retention policy (number of empty blocks), the search-window cache
-(`search_start/search_end/largest_unused_area` outside incremental mode) and with it "released memory is found again", contents /
-fill pattern of memory.  Full-strength statement of the part that is still open:
-  theorem reusable : Inv s → (a free run of n granules exists in a block of the pool that serves `size`) → `alloc size` maps no new block
+Not proved here (only tested by the correspondence + monitor, see notes/C09.md): the pool totals (used / reserved size, block count)
+as sums over blocks, the retention policy (number of empty blocks retained), contents / fill pattern of memory, and the refinement
+"the monitor of Spec/JitAlloc.lean accepts every model run" as one theorem.
 -/
 import AsmjitVerif.Lemmas.JitAllocReuse
 import AsmjitVerif.Spec.JitAlloc
@@ -255,5 +253,42 @@ example : ∃ sp : SpanOut, (step (St.init (mkConfig 0 0 0 0)) (.alloc 100)).1.t
 
 /-- the stale-shrink theorem has instances: a query of an address in no block fails -/
 example : (Alloc.init (mkConfig 0 0 0 0)).query 7 64 = .error .InvalidArgument := rfl
+
+/-! ### non-vacuity of the reuse theorem (one kernel evaluation of the model) -/
+
+def exState : St := (step (St.init (mkConfig 0 0 0 0)) (.alloc 128)).1
+
+def exCheck : Bool :=
+  match exState.a.blocks with
+  | [b] => b.pool == 0 && b.areaSize == 2048 && !bit b.used 3 && bit b.used 2 && exState.a.cfg.gran == 64 &&
+           exState.a.cfg.poolCount == 1
+  | _ => false
+
+set_option maxRecDepth 100000 in
+theorem nonvacuity_model_run : exCheck = true := by decide +kernel
+
+/-- non-vacuity of `free_memory_reused`: after `alloc 128` on the default configuration (a reachable state) the one block has a live
+span in granules 1-2 and a free granule 3, so a 64-byte request (pool 0, 1 granule) satisfies the hypothesis -/
+example : Reachable exState ∧ ∃ b ∈ exState.a.blocks, b.pool = sizeToPoolId exState.a.cfg (alignUp 64 exState.a.cfg.gran) ∧
+    HasRun b ((alignUp 64 exState.a.cfg.gran + exState.a.cfg.poolGran (sizeToPoolId exState.a.cfg (alignUp 64 exState.a.cfg.gran)) - 1) /
+      exState.a.cfg.poolGran (sizeToPoolId exState.a.cfg (alignUp 64 exState.a.cfg.gran))) ∧ bit b.used 2 = true := by
+  have h := nonvacuity_model_run
+  unfold exCheck at h
+  split at h
+  · rename_i b hb
+    simp only [Bool.and_eq_true, beq_iff_eq, Bool.not_eq_true', ] at h
+    obtain ⟨⟨⟨⟨⟨h1, h2⟩, h3⟩, h4⟩, h5⟩, h6⟩ := h
+    have hp : sizeToPoolId exState.a.cfg (alignUp 64 exState.a.cfg.gran) = 0 := by
+      simp [sizeToPoolId, h6, sizeToPoolId.go]
+    refine ⟨⟨_, [.alloc 128], mkConfig_wf 0 0 0 0, rfl⟩, b, by rw [hb]; simp, by rw [hp]; exact h1, ?_, h4⟩
+    rw [hp, h5]
+    have e : (alignUp 64 64 + exState.a.cfg.poolGran 0 - 1) / exState.a.cfg.poolGran 0 = 1 := by
+      simp [Config.poolGran, h5, alignUp]
+    rw [e]
+    refine ⟨3, by omega, ?_⟩
+    intro j a c
+    have : j = 3 := by omega
+    rw [this]; exact h3
+  · simp at h
 
 end AsmjitVerif.JitAlloc
